@@ -1,6 +1,6 @@
 CONSTANTS Params <- ParamsDef
           Kind <- KindDef
-          Contexts = {"c1", "c2", "c3"}  Threads = {"t1", "t2"}  MaxSteps = 5  ResetCode = TRUE
+          Contexts = {"c1", "c2", "c3"}  Threads = {"t1", "t2"}  MaxSteps = 5  ResetCode = FALSE
 SPECIFICATION Spec
 INVARIANTS NoStaleState Independence SecondLifeIsFresh DeadHoldsNothing
 CHECK_DEADLOCK FALSE
